@@ -173,7 +173,7 @@ theorem g4_raiseSig (st : St) (s : Int) : G4 st (raiseSig st s) := by
   · split
     · exact G4.of_eq rfl rfl rfl rfl rfl rfl rfl
     · split
-      · exact G4.of_eq rfl rfl rfl rfl rfl rfl rfl
+      · unfold sigRecord; split <;> first | exact G4.of_eq rfl rfl rfl rfl rfl rfl rfl | exact G4.refl _
       · split
         · exact G4.of_eq rfl rfl rfl rfl rfl rfl rfl
         · exact G4.refl st
@@ -464,10 +464,40 @@ theorem lstep_watchProcess (st : St) (pid : Int) (flags : Nat) (slot : Int) : LS
   simp only []
   have gW := g4_waitpid sB pid
   split
-  · -- pre-exited: the watch stays unlisted, a `later` is registered
+  · -- pre-exited: a `later` is registered; as shipped the watch stays unlisted, repaired it is linked
     have gS := gW.trans (g4_setWstatus (waitpid sB pid).st st.heap.length (waitpid sB pid).wstatus)
     have fS : LFacts st _ := (LStep.trans (fun _ _ => fB) gS.lstep) hc w
-    exact (LStep.trans (fun _ _ => fS) (lstep_watchLater _ 0 (-4) st.heap.length)) hc w
+    split
+    · generalize ((waitpid sB pid).st.setW st.heap.length { (waitpid sB pid).st.getW st.heap.length with wstatus := (waitpid sB pid).wstatus }) = sS at *
+      have haltS : st.heap.length < sS.heap.length := Nat.lt_of_lt_of_le haltB gS.ext.len
+      have hliveS : sS.live st.heap.length = true := by rw [(gS.ext.same _ haltB).1]; exact hkeep.1
+      have htypS : (sS.getW st.heap.length).type = .process := by rw [(gS.ext.same _ haltB).2]; exact hkeep.2
+      have hunS : ∀ t, st.heap.length ∉ listOf sS t := fun t h => by rw [gS.lists] at h; exact hunB t h
+      have fL' := lstep_watchLater sS 0 (-4) st.heap.length (by rw [fS.cfg]; exact hc) fS.wf
+      have fL : LFacts st (watchLater sS 0 (-4) st.heap.length).1 := (LStep.trans (fun _ _ => fS) (lstep_watchLater sS 0 (-4) st.heap.length)) hc w
+      have hunL := unlisted_after fL' haltS hunS
+      have hH : H4 sS (watchLater sS 0 (-4) st.heap.length).1 := by
+        unfold watchLater
+        exact ((g4_alloc sS _).trans (g4_insertWatch _ _ _ _)).ext.trans (H4.of_heap_eq rfl)
+      generalize hsl : watchLater sS 0 (-4) st.heap.length = rL at *
+      unfold linkNotified
+      have gN : G4 rL.1 (setNotify rL.1 st.heap.length (some rL.2)) := by
+        unfold setNotify; exact g4_setW _ _ _ rfl rfl
+      have fN : LFacts st (setNotify rL.1 st.heap.length (some rL.2)) := (LStep.trans (fun _ _ => fL) gN.lstep) hc w
+      have haltL : st.heap.length < rL.1.heap.length := Nat.lt_of_lt_of_le haltS hH.len
+      have gI := g4_insertWatch (setNotify rL.1 st.heap.length (some rL.2)) (setNotify rL.1 st.heap.length (some rL.2)).procs flags st.heap.length
+      have hl := snd_insertWatch (setNotify rL.1 st.heap.length (some rL.2)) (setNotify rL.1 st.heap.length (some rL.2)).procs flags st.heap.length
+      apply lfacts_link st (setNotify rL.1 st.heap.length (some rL.2)) _ st.heap.length .process fN (Nat.le_refl _)
+      · rw [(gN.ext.same _ haltL).1, (hH.same _ haltS).1]; exact hliveS
+      · rw [(gN.ext.same _ haltL).2, (hH.same _ haltS).2]; exact htypS
+      · intro t h; rw [gN.lists] at h; exact hunL t h
+      · exact gI.ext.trans (H4.of_heap_eq rfl)
+      · exact hl
+      · intro t ht
+        have := gI.lists t
+        cases t <;> first | exact this | exact absurd rfl ht
+      · exact gI.cfg
+    · exact (LStep.trans (fun _ _ => fS) (lstep_watchLater _ 0 (-4) st.heap.length)) hc w
   · have gI := g4_insertWatch (waitpid sB pid).st (waitpid sB pid).st.procs flags st.heap.length
     have hl := snd_insertWatch (waitpid sB pid).st (waitpid sB pid).st.procs flags st.heap.length
     have fW : LFacts st (waitpid sB pid).st := (LStep.trans (fun _ _ => fB) gW.lstep) hc w
@@ -519,22 +549,6 @@ theorem lstep_cancelFound (st : St) (a : Nat) (ha : a ∈ listOf st (st.getW a).
     fun t h => hun t (by rw [gN.lists] at h; exact h)
   exact (((LStep.trans (fun _ _ => fE) gN.lstep).trans (lstep_free_unlisted _ a hunN)).trans (g4_cancelRest _ _).lstep) hc w
 
-theorem l_watchCancel (st : St) (a : Nat) : LStep st (watchCancel st a) := by
-  unfold watchCancel
-  split
-  · exact LStep.refl st
-  · split
-    · exact (g4_fail st _).lstep
-    · split
-      · exact LStep.refl st
-      · split
-        · exact (g4_fail st _).lstep
-        · split
-          · exact LStep.refl st
-          · rename_i hcn
-            have : a ∈ listOf st (st.getW a).type := by simpa using hcn
-            exact lstep_cancelFound st a this
-
 theorem g4_setTypeNone_unlisted (st : St) (a : Nat) (h : ∀ t, a ∉ listOf st t) : LStep st (st.setW a { st.getW a with type := .none }) := by
   intro _ w
   have hl : ∀ t, listOf (st.setW a { st.getW a with type := .none }) t = listOf st t := fun t => by cases t <;> rfl
@@ -546,6 +560,53 @@ theorem g4_setTypeNone_unlisted (st : St) (a : Nat) (h : ∀ t, a ∉ listOf st 
   · intro t b hb; rw [hl] at hb
     have : a ≠ b := fun e => h t (e ▸ hb)
     rw [St.getW_setW_ne _ _ _ _ this]; exact w.typ t b hb
+
+/-- The repaired tail of `tickit_watch_cancel`: the watch was not found in the list of its type, so (lists hold
+    watches of their own type) it is in no list; it is notified and marked. -/
+theorem lstep_cancelDetached (st : St) (a : Nat) (hn : a ∉ listOf st (st.getW a).type) : LStep st (cancelDetached st a) := by
+  intro hc w
+  unfold cancelDetached
+  have gN := g4_cancelNotify st a (st.getW a)
+  have hun : ∀ t, a ∉ listOf (cancelNotify st a (st.getW a)) t := by
+    intro t h
+    rw [gN.lists] at h
+    have := w.typ t a h
+    rw [← this] at h
+    exact hn h
+  exact (LStep.trans gN.lstep (g4_setTypeNone_unlisted _ a hun)) hc w
+
+theorem g4_laterPre (st : St) (a : Nat) : G4 st (laterPre st a) := by
+  unfold laterPre
+  split
+  · exact g4_setW _ a _ rfl rfl
+  · exact G4.refl _
+
+theorem l_watchCancel0 (st : St) (a : Nat) : LStep st (watchCancel0 st a) := by
+  unfold watchCancel0
+  split
+  · exact LStep.refl st
+  · split
+    · exact (g4_fail st _).lstep
+    · split
+      · exact LStep.refl st
+      · split
+        · exact (g4_fail st _).lstep
+        · split
+          · rename_i hcn
+            split
+            · exact lstep_cancelDetached st a (by simpa using hcn)
+            · exact LStep.refl st
+          · rename_i hcn
+            have : a ∈ listOf st (st.getW a).type := by simpa using hcn
+            exact lstep_cancelFound st a this
+
+theorem l_watchCancel (st : St) (a : Nat) : LStep st (watchCancel st a) := by
+  unfold watchCancel
+  split
+  · split
+    · exact (l_watchCancel0 st a).trans (l_watchCancel0 _ _)
+    · exact l_watchCancel0 st a
+  · exact l_watchCancel0 st a
 
 theorem lstep_unlink_found (st : St) (a : Nat) (t0 : WType) (ha : a ∈ listOf st t0) :
     LStep st (((setListOf st t0 ((listOf st t0).erase a)).setW a { st.getW a with type := .none }).free a) := by
@@ -607,11 +668,13 @@ theorem l_doRegister (st : St) (k : Int) (reg : St → St × Nat) (h : ∀ s, LS
     · exact (h st).trans (g4_with_slots _ _).lstep
 
 
+theorem g4_with_cancelReq (st : St) (l : List Int) : G4 st { st with cancelReq := l } := G4.of_eq rfl rfl rfl rfl rfl rfl rfl
+
 theorem l_doCancel (st : St) (k : Int) : LStep st (doCancel st k) := by
   unfold doCancel
   split
   · exact (g4_emit _ _).lstep
-  · exact l_watchCancel _ _
+  · exact (g4_with_cancelReq _ _).lstep.trans (l_watchCancel _ _)
 
 
 theorem l_runAct (st : St) (act : Act) : LStep st (runAct st act) := by
@@ -755,11 +818,17 @@ theorem l_onSigchldAny (fuel : Nat) (st : St) : LStep st (onSigchldAny fuel st) 
   · exact l_onSigchld _ _ _
 
 
+theorem g4_clearNotify (st : St) (a : Nat) : G4 st (clearNotify st a) := by
+  unfold clearNotify
+  split
+  · unfold setNotify; exact g4_setW _ _ _ rfl rfl
+  · exact G4.refl _
+
 theorem l_processNotify (st : St) (a : Nat) : LStep st (processNotify st a) := by
   unfold processNotify
   split
   · exact (g4_fail _ _).lstep
-  · exact l_invokeWatch _ _ _ _
+  · exact (g4_clearNotify _ _).lstep.trans (l_invokeWatch _ _ _ _)
 
 
 theorem l_laterCb (st : St) (a : Nat) : LStep st (laterCb st a) := by
@@ -770,6 +839,10 @@ theorem l_laterCb (st : St) (a : Nat) : LStep st (laterCb st a) := by
     · exact l_processNotify _ _
     · exact LStep.refl _
 
+
+/-- `laterPre` then the callback. -/
+theorem l_laterPreCb (st : St) (a : Nat) : LStep st (laterCb (laterPre st a) a) :=
+  (g4_laterPre st a).lstep.trans (l_laterCb _ a)
 
 /-- The loop over the detached batch: its members are live, in no list, and freed one by one. -/
 theorem l_laterLoopT (l : List Nat) : ∀ st : St, (∀ a ∈ l, a < st.heap.length ∧ ∀ t, a ∉ listOf st t) → LStep st (laterLoopT st l).1 := by
@@ -783,21 +856,31 @@ theorem l_laterLoopT (l : List Nat) : ∀ st : St, (∀ a ∈ l, a < st.heap.len
     · split
       · exact (g4_fail _ _).lstep
       · split
-        · exact l_laterCb _ _
+        · -- a cancelled entry: freed without being invoked
+          intro hc w
+          have ha := hl a List.mem_cons_self
+          have f2 : LFacts st (st.free a) := lstep_free_unlisted st a ha.2 hc w
+          have hrest : ∀ b ∈ rest, b < (st.free a).heap.length ∧ ∀ t, b ∉ listOf (st.free a) t := by
+            intro b hb
+            have hb' := hl b (List.mem_cons_of_mem _ hb)
+            exact ⟨Nat.lt_of_lt_of_le hb'.1 f2.len, unlisted_after f2 hb'.1 hb'.2⟩
+          exact (LStep.trans (fun _ _ => f2) (ih _ hrest)) hc w
         · split
-          · exact (l_laterCb _ _).trans (g4_fail _ _).lstep
-          · intro hc w
-            have f1 := l_laterCb st a hc w
-            have ha := hl a List.mem_cons_self
-            have hun1 := unlisted_after f1 ha.1 ha.2
-            have f2 := lstep_free_unlisted (laterCb st a) a hun1 (by rw [f1.cfg]; exact hc) f1.wf
-            have f12 : LFacts st ((laterCb st a).free a) :=
-              (LStep.trans (fun _ _ => f1) (lstep_free_unlisted (laterCb st a) a hun1)) hc w
-            have hrest : ∀ b ∈ rest, b < ((laterCb st a).free a).heap.length ∧ ∀ t, b ∉ listOf ((laterCb st a).free a) t := by
-              intro b hb
-              have hb' := hl b (List.mem_cons_of_mem _ hb)
-              exact ⟨Nat.lt_of_lt_of_le hb'.1 f12.len, unlisted_after f12 hb'.1 hb'.2⟩
-            exact (LStep.trans (fun _ _ => f12) (ih _ hrest)) hc w
+          · exact l_laterPreCb _ _
+          · split
+            · exact (l_laterPreCb _ _).trans (g4_fail _ _).lstep
+            · intro hc w
+              have f1 := l_laterPreCb st a hc w
+              have ha := hl a List.mem_cons_self
+              have hun1 := unlisted_after f1 ha.1 ha.2
+              have f12 : LFacts st ((laterCb (laterPre st a) a).free a) :=
+                (LStep.trans (fun _ _ => f1) (lstep_free_unlisted (laterCb (laterPre st a) a) a hun1)) hc w
+              have hrest : ∀ b ∈ rest, b < ((laterCb (laterPre st a) a).free a).heap.length ∧
+                  ∀ t, b ∉ listOf ((laterCb (laterPre st a) a).free a) t := by
+                intro b hb
+                have hb' := hl b (List.mem_cons_of_mem _ hb)
+                exact ⟨Nat.lt_of_lt_of_le hb'.1 f12.len, unlisted_after f12 hb'.1 hb'.2⟩
+              exact (LStep.trans (fun _ _ => f12) (ih _ hrest)) hc w
 
 theorem pop_is_erase (st : St) (a : Nat) (rest : List Nat) (hq : st.timers = a :: rest) :
     ({ st with timers := rest } : St) = setListOf st .timer ((listOf st .timer).erase a) := by
@@ -1012,7 +1095,9 @@ theorem g4_pollTimeout (st : St) (t : Option Int) : G4 st (pollTimeout st t) := 
   · exact G4.refl _
 
 
-theorem g4_deliverPending (st : St) : G4 st (deliverPending st) := G4.of_eq rfl rfl rfl rfl rfl rfl rfl
+theorem g4_deliverPending (st : St) : G4 st (deliverPending st) := by
+  unfold deliverPending
+  split <;> exact G4.of_eq rfl rfl rfl rfl rfl rfl rfl
 
 
 theorem g4_ppoll (st : St) (t : Option Int) : G4 st (ppoll st t).1 := by
